@@ -2,6 +2,7 @@ package props
 
 import (
 	"fmt"
+	"sort"
 	"time"
 
 	sdk "github.com/cosmos/cosmos-sdk/types"
@@ -135,6 +136,23 @@ func runC12(rc *RunCtx) {
 			dt = stepDts[rc.Intn(6)]
 		default:
 			dt = stepDts[5+rc.Intn(5)]
+		}
+		if (c.Height+1)%C == 0 && rc.Chance(0.2) {
+			// the coming reward block lands a fraction of a second after (or exactly at, or just before) the end of a live gauge
+			var ends []time.Time
+			for _, t := range gt.g {
+				if t.End.After(c.Time) && t.End.Sub(c.Time) < 1200*24*time.Hour {
+					ends = append(ends, t.End)
+				}
+			}
+			if len(ends) > 0 {
+				sort.Slice(ends, func(i, j int) bool { return ends[i].Before(ends[j]) })
+				dt = ends[rc.Intn(len(ends))].Sub(c.Time) + []time.Duration{300 * time.Millisecond, 700 * time.Millisecond, 1, 0, -1}[rc.Intn(5)]
+				if dt <= 0 {
+					dt = time.Millisecond
+				}
+				rc.Count("reward_blocks_aimed_at_a_gauge_end", 1)
+			}
 		}
 		if !step(dt) {
 			return
